@@ -193,7 +193,8 @@ class Contract:
     # --- use at a call site ------------------------------------------------
     def apply(self, E, st, bound):
         cx = CallCtx(E, st, bound)
-        for name, f in self.requires(cx):
+        reqs = self.caller_requires(cx) if hasattr(self, 'caller_requires') else self.requires(cx)
+        for name, f in reqs:
             E.oblige(st, 'pre@call(%s).%s' % (self.qualname.split('.', 1)[1] if '.' in self.qualname else self.qualname, name),
                      f, kind='pre')
             st.assume(f)
